@@ -218,6 +218,7 @@ func (q *Seq) Exec(op SOp) bool {
 			}
 		}
 		q.Compare(r, what, exp, call)
+		m.ArmTimeout(call, nowMs)
 	case "yield", "inverr":
 		sym, actual := q.pickInv(r, idx, op)
 		var msg wamp.Message
@@ -247,7 +248,32 @@ func (q *Seq) Exec(op SOp) bool {
 		}
 		q.Compare(r, what+fmt.Sprintf("->req %d", creq), m.Cancel(idx, creq, op.Opts), nil)
 	case "sleep":
-		time.Sleep(time.Duration(op.K) * time.Millisecond)
+		// advance the clock, stopping at every router-side call deadline on
+		// the way: nothing may happen up to 1 ms before it, the timeout must
+		// have happened at it
+		target := nowMs + int64(op.K)
+		for {
+			now := int64(c.S.Elapsed() / time.Millisecond)
+			d := m.NextDeadline()
+			if d == 0 || d > target {
+				break
+			}
+			if d-1 > now {
+				time.Sleep(time.Duration(d-1-now) * time.Millisecond)
+				q.Settle()
+				q.Compare(r, what+" [before deadline]", nil, nil)
+			}
+			now = int64(c.S.Elapsed() / time.Millisecond)
+			if d > now {
+				time.Sleep(time.Duration(d-now) * time.Millisecond)
+			}
+			q.Settle()
+			c.Probe("router_timeout_expired")
+			q.Compare(r, what+fmt.Sprintf(" [deadline t=%dms]", d), m.Expire(d), nil)
+		}
+		if now := int64(c.S.Elapsed() / time.Millisecond); target > now {
+			time.Sleep(time.Duration(target-now) * time.Millisecond)
+		}
 		q.Settle()
 		q.Compare(r, what, nil, nil)
 	case "meta":
